@@ -37,6 +37,7 @@ func runC15(c *core.Ctx, r *core.Reporter) {
 	c15force(c, r)
 	c15escape(c, r)
 	c15params(c, r)
+	c15via(c, r)
 }
 
 // c15force: a printing function that forces a printer control (princ and ~A force escape off, prin1 and ~S force
